@@ -565,10 +565,10 @@ type termModel struct {
 		RetryAfter int    `json:"retryAfter"`
 		Reason     string `json:"reason"`
 	} `json:"outcome"`
-	Table      json.RawMessage `json:"table"`
-	WellFormed         bool `json:"wellFormed"`
-	MatchesRow         bool `json:"matchesRow"`
-	RetryAfterDemanded bool `json:"retryAfterDemanded"`
+	Table              json.RawMessage `json:"table"`
+	WellFormed         bool            `json:"wellFormed"`
+	MatchesRow         bool            `json:"matchesRow"`
+	RetryAfterDemanded bool            `json:"retryAfterDemanded"`
 }
 
 // holdOne occupies the single in-flight slot of clInflight (or drains the bucket of clBucket) with a helper request and
